@@ -185,6 +185,13 @@ class Party:
                                   or hi[j] > b[1] + 1e-12 * max(1.0, abs(b[1]))):
                 raise Violation("C10.optimizer_box_outside_bounds", param=name,
                                 box=[float(lo[j]), float(hi[j])], bounds=list(b[:2]))
+        if ex.fit_anis:
+            b = ex.bounds.get("anis")
+            for j in range(len(ex.order), ex.n):
+                if b is not None and (lo[j] < b[0] - 1e-12 * max(1.0, abs(b[0]))
+                                      or hi[j] > b[1] + 1e-12 * max(1.0, abs(b[1]))):
+                    raise Violation("C10.optimizer_box_outside_bounds", param="anis",
+                                    box=[float(lo[j]), float(hi[j])], bounds=list(b[:2]))
         if np.any(self.p0 <= lo) or np.any(self.p0 >= hi):
             raise Violation("C10.p0_outside_bounds", p0=self.p0.tolist(), lo=lo.tolist(),
                             hi=hi.tolist())
@@ -549,6 +556,9 @@ class Machine:
             if nlow > min(cur["nugget"], t["nugget"]):
                 nlow = 0.0
             vlow = max(1e-3, kw.get("var_low_frac", 0.0) * min(cur["var"], t["var"]))
+            if self.kind == "dir" and m.dim > 1:
+                a_all = list(cur["anis"]) + list(t["anis"])
+                m.set_arg_bounds(anis=[min(a_all) * 0.2, max(a_all) * 5.0])
             m.set_arg_bounds(var=[vlow, vmax], len_scale=[1e-3 * t["len_scale"], lmax],
                              nugget=[nlow, max(cur["nugget"], t["nugget"]) * 3 + 1.0, "cc"])
             self.ctx.probe("custom_bounds")
@@ -745,7 +755,9 @@ class Machine:
             if not close(v, mv, rtol=1e-12):
                 raise Violation("C10.returned_dict", key=k, returned=np.asarray(v).tolist(),
                                 model=np.asarray(mv).tolist(), party=op["party"])
-        for k in ["var", "len_scale", "nugget"] + list(m.opt_arg):
+        # (directional data: the ratios are part of the state the call determines)
+        for k in ["var", "len_scale", "nugget"] + list(m.opt_arg) + (
+                ["anis"] if self.kind == "dir" else []):
             if k not in fit_para:
                 raise Violation("C10.returned_dict_missing", key=k)
         # ---- recovery (fault free party only)
